@@ -33,6 +33,7 @@ def ctlOf (kind arg : Int) : Ctl :=
   | 4 => .seek arg
   | 5 => .stop
   | 7 => .bufReset
+  | 8 => .rescan
   | _ => .restart
 
 /-- split a token list at "|" -/
